@@ -644,6 +644,9 @@ func (g *Gen) execReturn(v *ssa.Return, st State, reach string) {
 	}
 	g.bindLets(g.ct, vars, st, g.entryState())
 	for i, c := range g.ct.Ensures {
+		if !c.active(g.prog.curProp) {
+			continue
+		}
 		if c.Free {
 			g.assumed["trusted postcondition (assume_ensures) of "+funcDisplayName(g.fn)+": "+c.Text] = true
 			continue
